@@ -283,6 +283,8 @@ func genPrior(r *Rng, d *hdesc, adversarial bool) []aop {
 	n := r.Intn(5)
 	for i := 0; i < n; i++ {
 		switch {
+		case adversarial && r.Intn(12) == 0:
+			out = append(out, aop{0, 26, r.Bytes(r.Intn(5))}) // too short to carry a vendor id and a payload
 		case d.vendor && r.Intn(2) == 0:
 			vid := d.vendorID
 			if r.Intn(4) == 0 {
@@ -338,7 +340,17 @@ func packetFrom(prior []aop, sec []byte, auth [16]byte, code int) *radius.Packet
 }
 
 // one op sequence on one helper, compared with the model
+func runHelperSeqAdv(c *Ctx, r *Rng, h *Helper, d *hdesc, inflight *string) {
+	runHelperSeqI(c, r, h, d, true, "", inflight)
+}
+
 func runHelperSeq(c *Ctx, r *Rng, h *Helper, d *hdesc, adversarial bool, tagp string) {
+	var s string
+	runHelperSeqI(c, r, h, d, adversarial, tagp, &s)
+}
+
+// inflight receives, before every call, the packet and the call about to be made (for the watchdog)
+func runHelperSeqI(c *Ctx, r *Rng, h *Helper, d *hdesc, adversarial bool, tagp string, inflight *string) {
 	sec := r.Bytes(1 + r.Intn(8))
 	if r.Intn(25) == 0 {
 		sec = nil
@@ -347,6 +359,11 @@ func runHelperSeq(c *Ctx, r *Rng, h *Helper, d *hdesc, adversarial bool, tagp st
 	copy(auth[:], r.Bytes(16))
 	copy(qauth[:], auth[:]) // a reply carries the request authenticator until it is encoded
 	prior := genPrior(r, d, adversarial)
+	var extraTags []string
+	if adversarial {
+		extraTags = classifyPrior(d, prior)
+		tagp = "adv"
+	}
 	p := packetFrom(prior, sec, auth, 2)
 	q := &radius.Packet{Code: 1, Identifier: 9, Secret: sec, Authenticator: qauth}
 	req := Req{Name: "helper"}
@@ -375,6 +392,7 @@ func runHelperSeq(c *Ctx, r *Rng, h *Helper, d *hdesc, adversarial bool, tagp st
 		rd := &recReader{src: r.Fork()}
 		var err error
 		pan := false
+		*inflight = fmt.Sprintf("packet attributes %s; call %s op=%d (0 Add,1 Set,2 Del,3 Lookup,4 Gets) tag=%d value=%x/%d", snapshot(p), h.Pkg+"."+h.Ident, o.op, o.tag, o.v.B, o.v.U)
 		switch o.op {
 		case 0:
 			withRand(rd, func() { pan = safely(func() { err = h.Add(p, o.tag, o.v) }) })
@@ -442,6 +460,9 @@ func runHelperSeq(c *Ctx, r *Rng, h *Helper, d *hdesc, adversarial bool, tagp st
 		}
 	}
 	c.Add(Case{Req: req, Impl: t.String(), Tag: tag})
+	for _, et := range extraTags {
+		c.TagOnly(et)
+	}
 }
 
 func kindTag(d *hdesc) string {
